@@ -1117,6 +1117,23 @@ func w1Run(s *simrt.Sim, script any, prop string) {
 	}
 	// settled = no asynchronous handler completion outstanding, then the settle time
 	// (unsubscribe wait gate 5 s, deferred broker unsubscribe 1 s + retries, batching)
+	if prop == "C43" {
+		// presence / presence-stats replies are compared with the node-level result
+		// while nothing else changes the presence sets
+		s.Sleep(6 * time.Second)
+		for _, cl := range w.clients {
+			if cl.never() || cl.isClosed() || !cl.connected {
+				continue
+			}
+			cl.readerDone = false
+			for _, ch := range sc.Channels {
+				if chHas(ch, 'e') {
+					cl.runOp(w1Op{K: "pres", Ch: ch})
+					cl.runOp(w1Op{K: "pstats", Ch: ch})
+				}
+			}
+		}
+	}
 	for i := 0; i < 20 && w.pendingAsync > 0; i++ {
 		s.Sleep(time.Second)
 	}
@@ -1307,7 +1324,7 @@ func w1Gen(c *simrt.Choice, prop, tier string) any {
 			var op w1Op
 			weights := []int{8, 5, 3, 1, 1, 1, 1, 1, 1, 1}
 			if prop == "C43" {
-				weights = []int{4, 1, 1, 0, 10, 6, 0, 0, 0, 0}
+				weights = []int{4, 1, 1, 0, 10, 0, 0, 0, 0, 0} // presence queries run in a quiescent phase after the scripts
 			}
 			if prop == "C37" {
 				weights = []int{12, 3, 2, 0, 0, 0, 0, 0, 2, 0}
